@@ -276,7 +276,10 @@ type Trace struct {
 	// Unanswered: after the final drain (database accepting everything) something had no answer.
 	Unanswered string
 	Notes      []string
-	Swaps      int // batches started while another request was waiting (non-trivial rule)
+	// NotQuiet: the writer did not become quiescent before shutdown (Harness.Close); the
+	// services were left running and the case must be discarded, not judged.
+	NotQuiet bool
+	Swaps    int // batches started while another request was waiting (non-trivial rule)
 }
 
 // KindOfCall tells which service sent an INSERT block.
@@ -660,6 +663,7 @@ func RunHistory(h History) *Trace {
 		}
 	}
 	hs.Close()
+	tr.NotQuiet = hs.NotQuiet
 	// a handler still blocked after the services are gone can only be waiting on a
 	// submission that will never be answered; do not wait for it forever
 	select {
